@@ -18,7 +18,13 @@
 (* (model-vs-code comparison, reported as a diagnostic).                     *)
 EXTENDS Common, Json
 
-VARIABLE s
+VARIABLES s,          \* the abbreviation
+          tokres,     \* the result of the tokenizer on s: [toks, err]
+          parsed,     \* the result of the token parser on tokres
+          phase          \* pipeline phase: 0 = s is new, 1 = tokenized, 2 = parsed (ready)
+svars == <<s, tokres, parsed, phase>>
+(* The pipeline of the code - tokenize, parse (, convert) - is one action per stage: SetInput, Tokenize, Parse.  Besides mirroring
+   the code this keeps TLC fast: a definition that depends on the state is re-evaluated at every use, a variable is not. *)
 
 \* ---- character access, 0-based positions as in the code
 N == Len(s)
@@ -123,7 +129,8 @@ Run(p, ctx, acc) ==
          IF r.tok.t = "error" THEN [toks |-> acc, err |-> r.tok.pos]
          ELSE Run(r.tok.e, r.ctx, Append(acc, r.tok))
 Ctx0 == [group |-> 0, attribute |-> 0, expression |-> 0, quote |-> ""]
-Result == Run(0, Ctx0, <<>>)
+TokCalc == Run(0, Ctx0, <<>>)          \* tokenize(s)
+Result == tokres
 
 
 \* =====================  token-level parser over T == Result.toks  =====================
@@ -278,11 +285,18 @@ Stmts(k, nodes, ctx, stack, self) ==
                          IN After(k4, nodes3, ctx, stack, gid, self)
          ELSE [kind |-> "ok", pos |-> k, nodes |-> nodes]
 
-Parsed == IF Result.err # -1 THEN [kind |-> "scanerr", pos |-> Result.err]
+ParsedCalc ==                          \* parse(tokenize(s)) given tokres
+          IF Result.err # -1 THEN [kind |-> "scanerr", pos |-> Result.err]
           ELSE LET r == Stmts(0, <<>>, 0, <<>>, 0) IN
                IF r.kind = "error" THEN [kind |-> "tokerr", pos |-> PErr(r.errk).err]
                ELSE IF Has(r.pos) THEN [kind |-> "tokerr", pos |-> Tk(r.pos).s]
                ELSE [kind |-> "ok", nodes |-> r.nodes]
+Parsed == parsed
+InitSyntax == s = "" /\ tokres = [toks |-> <<>>, err |-> -1] /\ parsed = [kind |-> "ok", nodes |-> <<>>] /\ phase = 2
+Ready == phase = 2
+SetInput(str) == phase = 2 /\ s' = str /\ phase' = 0 /\ UNCHANGED <<tokres, parsed>>
+Tokenize == phase = 0 /\ tokres' = TokCalc /\ phase' = 1 /\ UNCHANGED <<s, parsed>>
+Parse == phase = 1 /\ parsed' = ParsedCalc /\ phase' = 2 /\ UNCHANGED <<s, tokres>>
 
 (* projection used for the comparison with the real parser: per node parent, kind, token spans of name / value / attributes *)
 SpanOf(pr) == IF pr = <<>> THEN <<>> ELSE <<Tk(pr[1]).s, Tk(pr[2] - 1).e>>
